@@ -2,38 +2,52 @@
 # Entry point of every registered check:  ./run.sh <Cxx> quick|thorough   |   ./run.sh <Cxx> replay <file>
 # Rebuilds the harness (and therefore /repo's current working tree, through the replace
 # directive in harness/go.mod) with the instrumentation tag, then runs the driver.
+#
+# Self-test mode (never used by a registered check): VERIF_REPO=<scratch copy of the library>
+# VERIF_ALT=<name> builds against that copy through a generated -modfile and keeps binaries,
+# evidence and replays under .build/alt-<name>/ so that /verif's own evidence is not touched.
 set -u
 ROOT="$(cd "$(dirname "$0")" && pwd)"
 cd "$ROOT"
 export GOFLAGS=-mod=mod GOPROXY=off GOSUMDB=off GOTOOLCHAIN=local
 export VERIF_ROOT="$ROOT"
 PROP="${1:?property id}"; MODE="${2:?quick|thorough|replay}"
-mkdir -p "$ROOT/.build/tmp"
-export TMPDIR="$ROOT/.build/tmp"
+BUILD="$ROOT/.build"
+MODFILE=""
+if [ -n "${VERIF_ALT:-}" ]; then
+  BUILD="$ROOT/.build/alt-$VERIF_ALT"
+  mkdir -p "$BUILD"
+  sed "s#=> /repo#=> ${VERIF_REPO:?VERIF_REPO}#" "$ROOT/harness/go.mod" > "$BUILD/go.mod"
+  cp "$ROOT/harness/go.sum" "$BUILD/go.sum"
+  MODFILE="-modfile=$BUILD/go.mod"
+  export VERIF_OUT="$BUILD" VERIF_BIN="$BUILD"
+fi
+mkdir -p "$BUILD/tmp"
+export TMPDIR="$BUILD/tmp"
 
 build() { # $1 = output name, rest = extra flags
   local out="$1"; shift
-  ( cd "$ROOT/harness" && go build -tags verif "$@" -o "$ROOT/.build/$out.$$" ./cmd/vcheck && mv -f "$ROOT/.build/$out.$$" "$ROOT/.build/$out" )
+  ( cd "$ROOT/harness" && go build $MODFILE -tags verif "$@" -o "$BUILD/$out.$$" ./cmd/vcheck && mv -f "$BUILD/$out.$$" "$BUILD/$out" )
 }
 (
   flock 9
   build vcheck -gcflags=all=-d=checkptr || exit 4
-  if "$ROOT/.build/vcheck" needs-race "$PROP"; then
+  if "$BUILD/vcheck" needs-race "$PROP"; then
     build vcheck-race -race || exit 4
   fi
-) 9>"$ROOT/.build/build.lock" || { echo "BUILD-FAILED property=$PROP (the harness or /repo does not compile with -tags verif)"; exit 4; }
+) 9>"$BUILD/build.lock" || { echo "BUILD-FAILED property=$PROP (the harness or the library does not compile with -tags verif)"; exit 4; }
 
 case "$MODE" in
   quick|thorough)
-    "$ROOT/.build/vcheck" drive "$PROP" "$MODE"; rc=$?
+    "$BUILD/vcheck" drive "$PROP" "$MODE"; rc=$?
     ;;
   replay)
     FILE="${3:?replay file}"
-    BIN="$ROOT/.build/vcheck"
-    if "$ROOT/.build/vcheck" needs-race "$PROP" && grep -q '"race": *true' "$FILE" 2>/dev/null; then BIN="$ROOT/.build/vcheck-race"; fi
+    BIN="$BUILD/vcheck"
+    if "$BUILD/vcheck" needs-race "$PROP" && grep -q '"race": *true' "$FILE" 2>/dev/null; then BIN="$BUILD/vcheck-race"; fi
     "$BIN" replay "$PROP" "$FILE"; rc=$?
     ;;
   *) echo "unknown mode $MODE"; rc=3;;
 esac
-find "$ROOT/.build/tmp" -mindepth 1 -maxdepth 1 -mmin +120 -exec rm -rf {} + 2>/dev/null
+find "$BUILD/tmp" -mindepth 1 -maxdepth 1 -mmin +120 -exec rm -rf {} + 2>/dev/null
 exit $rc
